@@ -674,12 +674,6 @@ Proof.
   unfold ok_bytes. rewrite map_app. cbn [map]. rewrite Hb. split; reflexivity.
 Qed.
 
-Lemma first_unfinished_bound : forall ps k k', first_unfinished ps k = Some k' -> k <= k' < k + length ps.
-Proof.
-  induction ps as [|p ps IH]; intros k k' H; cbn [first_unfinished] in H; [discriminate|].
-  cbn [length]. destruct p; try (injection H as <-; lia).
-  apply IH in H. lia.
-Qed.
 Lemma join_from_extra s k V : length (wpcs S s) = T -> k <= T -> V + 1 = m + T ->
   io_extra V (join_from S s k) /\ post_fin (join_from S s k) = true.
 Proof.
